@@ -25,6 +25,12 @@ import cutadapt.cli as _cli
 import cutadapt.predicates as _predicates
 from cutadapt.files import FileFormat, OutputFiles
 
+try:
+    from crosshair import realize as _realize
+except Exception:  # pragma: no cover
+    def _realize(x):
+        return x
+
 try:  # building the pipeline is concrete work: do it outside CrossHair's tracer (speed only, no semantic effect)
     from crosshair.tracers import NoTracing, is_tracing
 except Exception:  # pragma: no cover
@@ -310,7 +316,9 @@ class Cell:
 
     def get(self):
         if self.pending:
-            self.value = self.table[self.index]
+            # realize(): make the row number a plain int first (CrossHair forks once per possible row).  Indexing a list
+            # of floats with a symbolic int would otherwise produce a SYMBOLIC float, and with it the IEEE float model.
+            self.value = self.table[_realize(self.index)]
             self.pending = False
         return self.value
 
